@@ -981,7 +981,18 @@ func (t *TransferK) Transfer(ctx context.Context, msg *transfertypes.MsgTransfer
 	if err := t.e.hit("transfer.Transfer"); err != nil {
 		return nil, err
 	}
-	t.e.logEffect(ctx, fmt.Sprintf("transfer %s ch=%s to=%s memo=%s", msg.Token.String(), msg.SourceChannel, msg.Receiver, msg.Memo))
+	// escrow the tokens, as the ICS-20 module does for native denoms
+	b := &BankK{t.e}
+	fm := b.bal(ctx, msg.Sender)
+	if fm[msg.Token.Denom] < msg.Token.Amount.Int64() {
+		return nil, fmt.Errorf("insufficient funds")
+	}
+	fm[msg.Token.Denom] -= msg.Token.Amount.Int64()
+	b.setBal(ctx, msg.Sender, fm)
+	em := b.bal(ctx, "escrow")
+	em[msg.Token.Denom] += msg.Token.Amount.Int64()
+	b.setBal(ctx, "escrow", em)
+	t.e.logEffect(ctx, fmt.Sprintf("transfer %s ch=%s to=%s memo=%s timeout=%d", msg.Token.String(), msg.SourceChannel, msg.Receiver, msg.Memo, msg.TimeoutTimestamp))
 	return &transfertypes.MsgTransferResponse{}, nil
 }
 
